@@ -60,6 +60,9 @@ func (ex *Exec) execCall(fr *Frame, st *State, c *ssa.CallCommon, pos token.Pos,
 		}
 	}
 	if fn == nil {
+		if v, ok := ex.pureParamCall(fr, st, c, args, rt); ok {
+			return v
+		}
 		return ex.havocCall(fr, st, "dynamic function value", args, rt)
 	}
 	return ex.callFunction(fr, st, fn, bind, args, pos, rt)
@@ -108,6 +111,42 @@ func (ex *Exec) callFunction(fr *Frame, st *State, fn *ssa.Function, bind []Valu
 		return v
 	}
 	return ex.havocCall(fr, st, name, args, rt)
+}
+
+// pureParamCall models a call through a function-typed parameter that the contract declares
+// `pure_param`: the results are an uninterpreted function of the arguments and nothing else
+// changes. This is an assumption about the callers' closures, listed in the evidence.
+func (ex *Exec) pureParamCall(fr *Frame, st *State, c *ssa.CallCommon, args []Value, rt types.Type) (Value, bool) {
+	if ex.contract == nil || len(ex.contract.PureParams) == 0 || fr != ex.top {
+		return nil, false
+	}
+	fv, ok := ex.val(fr, c.Value).(Sc)
+	if !ok {
+		return nil, false
+	}
+	for _, pn := range ex.contract.PureParams {
+		pv, ok := fr.params[pn].(Sc)
+		if !ok || pv.T != fv.T {
+			continue
+		}
+		var leaves []*Term
+		for _, a := range args {
+			leaves = append(leaves, flatten(a)...)
+		}
+		ls := leavesOf(rt)
+		ts := make([]*Term, len(ls))
+		for i, l := range ls {
+			ts[i] = App(fmt.Sprintf("param|%s.%s|%d", fnKey(fr.fn), pn, i), l.Sort, leaves...)
+		}
+		ex.note("calls through parameter %s of %s are modelled as an uninterpreted pure function of their arguments", pn, fr.fn)
+		if len(ls) == 0 {
+			return TupV{Ty: rt}, true
+		}
+		v := fromLeaves(rt, ts)
+		st.assume(st.wf(v))
+		return v, true
+	}
+	return nil, false
 }
 
 func (ex *Exec) unrollCallsFor(fn *ssa.Function) (int, bool) {
@@ -229,8 +268,18 @@ func (ex *Exec) external(fr *Frame, st *State, fn *ssa.Function, args []Value, p
 				ex.havocPointees(st, a)
 			}
 			r := ex.freshResult(st, rt)
-			if name == "time.Now" {
-				// nothing more
+			switch name {
+			case "math/rand.Int31n", "math/rand.Int63n", "math/rand.Intn":
+				// documented: returns a value in [0, n); panics if n <= 0
+				if n, ok := args[0].(Sc); ok {
+					w := n.T.Sort.W
+					ex.check("panic", "rand-nonpositive", pos, st, SLt(BVi(0, w), n.T))
+					rv := r.(Sc)
+					st.assume(And(SLe(BVi(0, w), rv.T), SLt(rv.T, n.T)))
+				}
+			case "math/rand.Int31", "math/rand.Int63", "math/rand.Int":
+				rv := r.(Sc)
+				st.assume(SLe(BVi(0, rv.T.Sort.W), rv.T))
 			}
 			return r, true
 		}
@@ -649,6 +698,30 @@ func (ex *Exec) havocSpecLoc(env *SpecEnv, st *State, e ast.Expr) {
 				m := env.eval(call.Args[0]).(Sc)
 				mt := m.Ty.Underlying().(*types.Map)
 				ex.havocMap(st, mt, m.T)
+				return
+			case "mapfamily":
+				// mapfamily(T): every map of the named map type may change
+				t := env.resolveType(call.Args[0])
+				if t == nil {
+					specErr("mapfamily: unknown type %s", exprStr(call.Args[0]))
+				}
+				mt, ok := t.Underlying().(*types.Map)
+				if !ok {
+					specErr("mapfamily: %s is not a map type", t)
+				}
+				fam := mapFam(mt)
+				for n, srt := range heapSorts {
+					if strings.HasPrefix(n, fam+"|") {
+						st.setHeap(n, Fresh("mapfam", srt))
+					}
+				}
+				// families not touched yet: make sure the standard ones exist
+				ks := keySort(mt.Key())
+				st.setHeap(fam+"|present", Fresh("mapfam", ArraySort(RefSort, ArraySort(ks, BoolSort))))
+				st.setHeap(fam+"|card", Fresh("mapfam", ArraySort(RefSort, IntSort)))
+				for _, lf := range leavesOf(mt.Elem()) {
+					st.setHeap(fam+"|v|"+lf.Name, Fresh("mapfam", ArraySort(RefSort, ArraySort(ks, lf.Sort))))
+				}
 				return
 			}
 		}
